@@ -214,19 +214,27 @@ def bandlimited_rms(r, psd, wllow=None, wlhigh=None, flow=None, fhigh=None):
     float
         band-limited RMS value
 
+    Notes
+    -----
+    Each edge of the band may be given as a period or as a frequency:
+    the lower edge is 1/wlhigh or flow (default 0), the upper edge is 1/wllow
+    or fhigh (default r.max()).  If the same edge is given both ways the
+    period is used.  At least one of the four must be given.
+
     """
     default_max = r.max()
     if wllow is not None or wlhigh is not None:
-        # spatial period given
-        if wllow is None:
-            fhigh = default_max
-        else:
+        # spatial period given; an edge that is not given as a period keeps
+        # the frequency it was given as, if any, before falling back to the default
+        if wllow is not None:
             fhigh = 1 / wllow
+        elif fhigh is None:
+            fhigh = default_max
 
-        if wlhigh is None:
-            flow = 0
-        else:
+        if wlhigh is not None:
             flow = 1 / wlhigh
+        elif flow is None:
+            flow = 0
     elif flow is not None or fhigh is not None:
         # spatial frequency given
         if flow is None:
